@@ -44,8 +44,11 @@ def gen_program(rng):
             ops.append(["readline", rng.choice(SIZES)])
         elif k < 8:
             ops.append(["readlines", rng.choice([None, -1, 0, 1, 5, 50, 5000])])
-        else:
+        elif k < 9:
             ops.append(["next"])
+        else:
+            # a fresh iterator, abandoned after a few lines ("for line in body: ... break"): what it did not hand out is still there
+            ops.append(["iter", rng.choice([0, 1, 1, 2, 3])])
     tail = rng.choice(["stop", "stop", "drain", "drain+eof"])
     return {"ops": ops, "tail": tail}
 
@@ -196,6 +199,15 @@ def run(case, choices):
                         got = req.body.readline(arg) if arg is not None else req.body.readline()
                     elif name == "readlines":
                         got = req.body.readlines(arg) if arg is not None else req.body.readlines()
+                    elif name == "iter":
+                        got = []
+                        it = iter(req.body)
+                        for _ in range(arg):
+                            try:
+                                got.append(next(it))
+                            except StopIteration:
+                                break
+                        del it
                     else:
                         try:
                             got = next(req.body)
@@ -230,6 +242,8 @@ def run(case, choices):
                     exp = model.readline()
                     if exp == b"":
                         exp = StopIteration
+                elif name == "iter":
+                    exp = [x for x in (model.readline() for _ in range(arg)) if x]
                 else:
                     exp = model.readlines(arg) if arg is not None else model.readlines()
                     if got != exp:
